@@ -372,6 +372,7 @@ func (s *Sim) drive() {
 		s.violate("C15", "accepted-config-breaks-rule", strings.SplitN(msg, ":", 2)[0], "the configuration the scheduler registered with breaks a hierarchy rule: %s", msg)
 	}
 	s.c.settle()
+	s.checkACLState("at-start")
 	s.post = TakeSnap(s.sc.Scheduler, s.part)
 	if s.cfg.Restore != nil {
 		s.recoverFrom(s.cfg.Restore)
